@@ -286,7 +286,7 @@ struct MsgEngine : public Engine
          const String & fn = it.GetFieldName();
          uint32 tc, cnt; if (m.GetInfo(fn, &tc, &cnt).IsError()) continue;
          if ((tc == B_POINTER_TYPE)||(tc == B_TAG_TYPE)) continue;
-         if (tc == B_MESSAGE_TYPE)
+         if ((tc == B_MESSAGE_TYPE)&&(cnt > 0))
          {
             for (uint32 i=0; i<cnt; i++) {ConstMessageRef sub; if ((m.FindMessage(fn, i, sub).IsOK())&&(sub())) (void) r.AddMessage(fn, GetMessageFromPool(flatPart(*sub())));}
          }
